@@ -772,7 +772,6 @@ func main() {
 	run.CheckFn = "PKI.check"
 	run.DiagFn = "PKI.diag"
 	run.CaseType = "PKI.case"
-	run.Scope = "Z"
 	run.ShardSize = 60
 	run.Rule = "updates: a valid predecessor (base or update, 1-3 sensitive, 1-3 regular, 1-2 root certificates) and a " +
 		"well-formed completely signed regular or sensitive successor (re-keyed / added / removed certificates, changed " +
@@ -785,8 +784,8 @@ func main() {
 	rng := vgen.NewRand(run.Seed)
 	f := trcgen.NewFactory()
 
-	nu := run.Count(420, 40000)
-	nb := run.Count(80, 6000)
+	nu := run.Count(420, 20000)
+	nb := run.Count(80, 3000)
 	for i := 0; i < nu+nb; i++ {
 		r := rng.Fork(uint64(i))
 		var sc *scenario
@@ -830,7 +829,7 @@ func main() {
 			predT = "(Some " + predAbs.Gallina() + ")"
 		}
 		term := vgen.App("PKI.CVerify", predT, abs.Gallina(), vgen.ListOf(sis, SI.Gallina),
-			vgen.Pair(vgen.Z(int64(o.coarse)), vgen.Z(int64(o.fine))), o.upd)
+			vgen.Pair(vgen.Z(int64(o.coarse)), vgen.Z(int64(o.fine))), o.upd) + "%Z"
 		run.Tally(fmt.Sprintf("verdict:coarse%d", o.coarse))
 		run.Tally(fmt.Sprintf("verdict:%d/%d", o.coarse, o.fine))
 		run.Tally("plan:" + strings.SplitN(sc.plan, "+", 2)[0])
